@@ -106,3 +106,24 @@ func VerifHarness_C15_UnicodeEscape() {
 	verifrt.Assert(err == nil && string(got) == want, "unicode-escape-decodes-to-its-code-point")
 	verifrt.Reach("end")
 }
+
+// C15-L1 (escapes next to each other): a two-character escape followed by text that looks like the tail of a unicode
+// escape ('\\u0041' is a backslash and the five characters u0041), and a unicode escape followed by another escape.
+func VerifHarness_C15_AdjacentEscapes() {
+	esc := []string{"\\\\", "\\'", "\\n", "\\/", "\\u0041"}[verifrt.Choose("first", 5)]
+	var rest string
+	switch verifrt.Choose("rest", 3) {
+	case 0:
+		rest = "u" + []string{"00", "20", "fF"}[verifrt.Choose("hexHi", 3)] + verifrt.NondetStringN("hexLo", 2)
+	case 1:
+		rest = "\\" + verifrt.NondetStringN("second", 1) + verifrt.NondetString("tail", 1)
+	default:
+		rest = verifrt.NondetString("text", 2)
+	}
+	body := esc + rest
+	want, valid := verifDecode(body)
+	verifrt.Assume(valid)
+	got, err := ParseString("'" + body + "'")
+	verifrt.Assert(err == nil && string(got) == want, "adjacent-escapes-decode-independently")
+	verifrt.Reach("end")
+}
